@@ -5,7 +5,7 @@ use crate::socket::snmpsocket::SnmpSocket;
 use crate::socket::{SnmpV1ClientSocket, SnmpV2cClientSocket};
 use pyo3::pybacked::PyBackedStr;
 
-//@ C03 quick | v2c send_get("1.3.x"): community "pub", symbolic arc x, symbolic random draw: datagram == reference encoding
+//@ C03 quick timeout=1500 | v2c send_get("1.3.x"): community "pub", symbolic arc x, symbolic random draw: datagram == reference encoding
 #[kani::proof]
 #[kani::unwind(12)]
 #[kani::stub(alloc::fmt::format, stub_format)]
